@@ -124,7 +124,7 @@ def C10_roundtrip_statement : Prop :=
   ∀ (env : Env) (leafText : Val → Option (List Nat)) (v : Val) (text : List Nat),
     formatValue leafText 8 (3 * fsize v + 1) v = .ok text →
     (∀ leaf t, leafText leaf = some t → ∃ tok, scan t = [tok, { tok with tt := .eof, value := [] }] ∧ env.conv tok = some leaf) →
-    ∃ v', parseTokens env (4 * (scan text).length + 16) (scan text) = .value v'
+    ∃ v', parseTokens env (8 * (scan text).length + 16) (scan text) = .value v'
 
 example : fmtValue (fun _ => some (str "7")) 8 20 0 (.coll .list [.int 7, .int 7]) =
     .ok (str "[\n    7\n    7\n](List)") := by decide
